@@ -19,7 +19,7 @@ LEVEL = "proof"
 LEAN = ["SaVerif.Props.C24"]
 META = {
     "text": "Lean theorem checkin_clean: for EVERY operation sequence (any interleaving of begin/begin_nested/statements/commit/rollback/handle ops/context managers/execution_options calls in any number and order - AUTOCOMMIT, READ UNCOMMITTED, logging_token, both in one call, unrelated options - engine-level options/invalidate/armed DBAPI faults at cursor, execute, commit and rollback, also during the reset itself/close/garbage collection/new checkouts/extra pooled connections) every DBAPI connection idle in the pool has no uncommitted work, no savepoints, the default isolation level and no pending reset callbacks, whenever reset_on_return is rollback or commit; handed_out_clean: therefore every checkout sees exactly the committed rows in the default isolation level. Proved by an inductive invariant (well-formed handle table + clean pool + 'a non-default isolation level is always accompanied by a queued reset callback') over the transcribed Connection/pool model incl. the _ConnectionRecord.finalize_callback queue; the model is tied to engine/base.py + engine/default.py + pool/base.py by a per-step differential run of multi-checkout histories on a real QueuePool over SQLite, and the property itself is checked at every checkout by a direct oracle on all five pool classes, including a BaseException (KeyboardInterrupt) raised by the DBAPI during reset-on-return.",
-    "note": "create_engine(skip_autocommit_rollback=True) is a dimension of model, generator and correspondence (the dialect skips ROLLBACK - in Connection._rollback_impl and in the pool reset - exactly when the DBAPI connection itself reports autocommit, whatever isolation_level option the Connection object has recorded: rollback_not_skipped_when_transactional, reset_not_skipped_when_transactional); checkin_clean / handed_out_clean are stated for engines WITHOUT that option: with it they fail for a SAVEPOINT opened under driver-level AUTOCOMMIT (skip_autocommit_savepoint_counterexample; reproduced on the real code with SQLite, not generated by the harness because savepoints under AUTOCOMMIT are excluded from the tie). After fix 387ee97 (Connection.close skip_reset only while the transaction is active) the invariant needs no 'no failed commit before close' guard; prefix_close_counterexample keeps the pre-fix close() as a definition and proves it breaks the invariant (F7, fixed). Modelled-not-verified: the DBAPI driver (sqlite3 in autocommit=False mode behind the harness proxy; AUTOCOMMIT switch mapped onto sqlite3's autocommit attribute), weakref/GC timing (gc.collect() in the harness), only the single-threaded use of QueuePool (queue discipline FIFO); other pool classes are checked by the oracle only (not by the Lean model); the BaseException-during-reset histories are modelled (fault kind kbi, incl. fix 49615f9: the invalidated record is checked in before the exception propagates). PostgreSQL/MariaDB not executed.",
+    "note": "create_engine(skip_autocommit_rollback=True) is a dimension of model, generator and correspondence (the dialect skips ROLLBACK - in Connection._rollback_impl and in the pool reset - exactly when the DBAPI connection itself reports autocommit, whatever isolation_level option the Connection object has recorded: rollback_not_skipped_when_transactional, reset_not_skipped_when_transactional); checkin_clean / handed_out_clean are stated for engines WITHOUT that option: with it they fail for a SAVEPOINT opened under driver-level AUTOCOMMIT (skip_autocommit_savepoint_counterexample = known finding skip-autocommit-rollback:savepoint-open-at-close, F24, generated and replayed on the real code; checkin_clean_skip_partial: with the option a check-in is clean whenever a DBAPI connection in driver-level autocommit has no transaction opened by SQL). Savepoints under driver-level AUTOCOMMIT are part of model and tie: the SAVEPOINT opens a transaction that lasts until the outermost savepoint is released or COMMIT/ROLLBACK (SQLite; legacy pysqlite commit()/rollback() emulated by the DBAPI proxy). After fix 387ee97 (Connection.close skip_reset only while the transaction is active) the invariant needs no 'no failed commit before close' guard; prefix_close_counterexample keeps the pre-fix close() as a definition and proves it breaks the invariant (F7, fixed). Modelled-not-verified: the DBAPI driver (sqlite3 in autocommit=False mode behind the harness proxy; AUTOCOMMIT switch mapped onto sqlite3's autocommit attribute), weakref/GC timing (gc.collect() in the harness), only the single-threaded use of QueuePool (queue discipline FIFO); other pool classes are checked by the oracle only (not by the Lean model); the BaseException-during-reset histories are modelled (fault kind kbi, incl. fix 49615f9: the invalidated record is checked in before the exception propagates). PostgreSQL/MariaDB not executed.",
     "technique": "Lean 4 inductive invariant over all histories of a hand-transcribed model + per-step differential correspondence on a real pool over SQLite",
     "design_ref": "DESIGN.md §3 C24",
 }
@@ -27,20 +27,27 @@ META = {
 RESETS = ["rollback", "commit", "none"]
 
 
-def oracle(ops, records, reset, engine_opts="none"):
+KEY_F24 = "skip-autocommit-rollback:savepoint-open-at-close"
+
+
+def oracle(ops, records, reset, engine_opts="none", skip_ac=False):
     """The property itself: at every checkout (the initial one and every `N`) the DBAPI
     connection handed out sees exactly the committed rows and is not in AUTOCOMMIT —
     unless reset_on_return is disabled.  -> (key, step, why) or None"""
     from harness import lib_txn
 
+    trig = f24_trigger(ops, records) if skip_ac else None
     for i, (tok, rec) in enumerate(zip(ops, records)):
         o = lib_txn.parse_record(rec)
         if o["res"].startswith("EXC:") or o["res"].startswith("OBSERVE-ERROR"):
-            return ("c24-oracle", i, "step %d (%s) let an internal error escape: %s" % (i, tok, o["res"]))
+            # (once F24 has left a transaction open on a pooled connection, switching that
+            # connection to AUTOCOMMIT at the next connect can fail inside the driver)
+            key = KEY_F24 if trig is not None and i >= trig else "c24-oracle"
+            return (key, i, "step %d (%s) let an internal error escape: %s" % (i, tok, o["res"]))
         if reset == "none":
             continue
         if "LOCKED" in o["committed"] or "LOCKED" in o["working"]:
-            return (classify(ops[: i + 1]), i, "step %d (%s): the database file is locked by a pooled DBAPI connection that still has a transaction open" % (i, tok))
+            return (classify(ops[: i + 1], records[: i + 1], skip_ac), i, "step %d (%s): the database file is locked by a pooled DBAPI connection that still has a transaction open" % (i, tok))
         if tok != "N":
             continue
         if o["res"] != "ok":
@@ -48,23 +55,46 @@ def oracle(ops, records, reset, engine_opts="none"):
         if o["working"] == "x":
             continue
         if o["working"] != o["committed"]:
-            return (classify(ops[: i + 1]), i, "checkout at step %d hands out a DBAPI connection that sees rows %s while %s are committed (uncommitted work of an earlier user)" % (i, o["working"], o["committed"]))
+            return (classify(ops[: i + 1], records[: i + 1], skip_ac), i, "checkout at step %d hands out a DBAPI connection that sees rows %s while %s are committed (uncommitted work of an earlier user)" % (i, o["working"], o["committed"]))
         flags = o["rid"].lstrip("0123456789")
         want_auto = "auto" in engine_opts  # engine-wide AUTOCOMMIT is re-applied to every new Connection
         if ("a" in flags) != want_auto:
-            return (classify(ops[: i + 1]), i, "checkout at step %d hands out a DBAPI connection with autocommit=%s, engine default %s (isolation level left by an earlier user)" % (i, "a" in flags, want_auto))
+            return (classify(ops[: i + 1], records[: i + 1], skip_ac), i, "checkout at step %d hands out a DBAPI connection with autocommit=%s, engine default %s (isolation level left by an earlier user)" % (i, "a" in flags, want_auto))
         if "u" in flags:
-            return (classify(ops[: i + 1]), i, "checkout at step %d hands out a DBAPI connection still in READ UNCOMMITTED" % i)
+            return (classify(ops[: i + 1], records[: i + 1], skip_ac), i, "checkout at step %d hands out a DBAPI connection still in READ UNCOMMITTED" % i)
     return None
 
 
-def classify(ops):
+def f24_trigger(ops, records):
+    """first step at which a Connection is let go (close / GC / dropped) while its DBAPI
+    connection, in driver-level autocommit, has a transaction open (opened by a SAVEPOINT):
+    with skip_autocommit_rollback=True nobody rolls that transaction back"""
+    from harness import lib_txn
+
+    prev = None
+    for i, (t, r) in enumerate(zip(ops, records)):
+        o = lib_txn.parse_record(r)
+        if prev is not None and t in ("X", "G", "N") and prev["rid"] != "x":
+            if "t" in prev["rid"].lstrip("0123456789"):
+                return i
+        prev = o
+    return None
+
+
+def classify(ops, records=None, skip_ac=False):
     """specific key for a violating history: the (fixed) F7 shape is "in the session before
     the offending checkout a COMMIT failed with a non-disconnect error and the Connection was
-    then close()d with the inactive transaction still attached" """
+    then close()d with the inactive transaction still attached"; F24 is "the engine has
+    skip_autocommit_rollback=True and in that session a SAVEPOINT was opened while the DBAPI
+    connection was in driver-level autocommit" (the rollbacks of close() and of the pool are
+    then skipped although the SAVEPOINT has opened a transaction) """
     sess = ops[:-1] if ops and ops[-1] == "N" else ops
+    start = 0
     if "N" in sess:
-        sess = sess[len(sess) - sess[::-1].index("N"):]
+        start = len(sess) - sess[::-1].index("N")
+        sess = sess[start:]
+    if skip_ac and records is not None and f24_trigger(ops, records) is not None:
+        return KEY_F24
     if "Fce" in sess and "X" in sess and not any(t in ("G", "I", "A", "U", "LA") or t.endswith("k") for t in sess):
         i = sess.index("Fce")
         rest = sess[i + 1:]
@@ -77,7 +107,6 @@ def classify(ops):
 def gen_sessions(rng, world, nsess, reset="rollback", queue=True, chars=False, kbi=False):
     k = 1
     for s in range(nsess):
-        # under AUTOCOMMIT no savepoints are generated (SQLite would open a transaction for them)
         auto = "auto" in world.engine_opts
         if chars and rng.random() < 0.45:
             # several execution_options() calls in varying order
@@ -115,7 +144,8 @@ def gen_sessions(rng, world, nsess, reset="rollback", queue=True, chars=False, k
                 continue
             if r < 0.10:
                 yield "b"
-            elif r < 0.20 and not auto:
+            elif r < 0.20 and (not auto or rng.random() < 0.6):
+                # (under driver-level AUTOCOMMIT the SAVEPOINT itself opens a transaction)
                 yield "n"
             elif r < 0.50:
                 if rng.random() < 0.1 and k > 1:
@@ -229,6 +259,12 @@ FIXED_ISO = [
     ("A;i1;Fre;X;D;N;q", "rollback"),
     ("A;i1;G;N;q", "rollback"),
     ("A;i1;X;N;i2;R;q", "commit"),
+    # savepoints under driver-level AUTOCOMMIT (the SAVEPOINT opens a transaction): released,
+    # rolled back, committed by the root, left open at close (F24 with skip_autocommit_rollback)
+    ("A;n;i1;c1;q;n;i2;r2;q;n;i3;C;q;X;N;q", "rollback"),
+    ("A;n;i1;n;i2;r2;i3;R;q;X;N;q", "rollback"),
+    ("A;n;i1;X;N;q;i2;C;q", "rollback"),
+    ("A;n;i1;G;N;q", "rollback"),
 ]
 
 FIXED = [
@@ -278,9 +314,16 @@ def run(ctx, deep=False):
         for t in ops:
             ctx.count("op=" + (t if t[0] in "FWAGNXI" else t[0]))
         ctx.count("engine_opts=" + engine_opts)
-        bad = oracle(ops, recs, reset, engine_opts)
+        bad = oracle(ops, recs, reset, engine_opts, skip_ac)
         if bad:
             ctx.violation(bad[0], {"ops": ops[: bad[1] + 1], "reset": reset, "pool": poolclass, "engine_opts": engine_opts, "skip_ac": skip_ac}, bad[2])
+        trig = f24_trigger(ops, recs) if skip_ac else None
+        if trig is not None:
+            # beyond the known defect F24 a pooled connection keeps somebody's transaction open
+            # (other connections then meet SQLite's file lock, which the model does not have):
+            # compare with the model up to that step only
+            ops, recs = ops[: trig + 1], recs[: trig + 1]
+            case = {"ops": ops, "reset": reset, "pool": poolclass, "engine_opts": engine_opts, "skip_ac": skip_ac}
         if poolclass == "QueuePool" and modelled(ops, engine_opts):
             cases.append(case)
             impl_out.append("|".join(recs) if recs else "-")
@@ -329,7 +372,7 @@ def search(ctx, broken):
     for d in ctx.disagreements:
         c = d["case"]
         recs = replay_ops(c["ops"], c["reset"], c.get("pool", "QueuePool"), c.get("engine_opts", "none"), c.get("skip_ac", False))
-        bad = oracle(c["ops"], recs, c["reset"], c.get("engine_opts", "none"))
+        bad = oracle(c["ops"], recs, c["reset"], c.get("engine_opts", "none"), c.get("skip_ac", False))
         if bad:
             ctx.violation(bad[0], {"ops": c["ops"][: bad[1] + 1], "reset": c["reset"], "pool": c.get("pool", "QueuePool"), "engine_opts": c.get("engine_opts", "none"), "skip_ac": c.get("skip_ac", False)}, bad[2])
     sub = type(ctx)(ctx.pid, "thorough", ctx.seed + 1, ctx.level)
@@ -341,7 +384,7 @@ def replay(ctx, obj):
     c = obj["case"]
     eo = c.get("engine_opts", "none")
     recs = replay_ops(c["ops"], c["reset"], c.get("pool", "QueuePool"), eo, c.get("skip_ac", False))
-    bad = oracle(c["ops"], recs, c["reset"], eo)
+    bad = oracle(c["ops"], recs, c["reset"], eo, c.get("skip_ac", False))
     print("replay C24 reset=%s pool=%s engine_opts=%s skip_autocommit_rollback=%s ops=%s" % (c["reset"], c.get("pool", "QueuePool"), eo, c.get("skip_ac", False), ";".join(c["ops"])))
     for t, r in zip(c["ops"], recs):
         print("  %-5s %s" % (t, r))
